@@ -1,11 +1,21 @@
 #!/usr/bin/env python3
 """Prints the prompt given to a fresh sub-agent that seeds property-breaking changes (it sees only
 the property text and a scratch worktree of /repo — nothing from /verif)."""
-import json, sys
+import json, sys, os
 pid = sys.argv[1]; n = int(sys.argv[2]) if len(sys.argv) > 2 else 3
 hint = sys.argv[3] if len(sys.argv) > 3 else ""
+# ROUND2: mention what earlier rounds already tried, so that a new round explores other mechanisms
+import os
+prev = []
+for d in sorted(os.listdir("/verif/seeded")) if os.path.isdir("/verif/seeded") else []:
+    if d.startswith(pid + "-"):
+        try: prev.append(json.load(open(f"/verif/seeded/{d}/meta.json")).get("summary", "")[:300].replace("\n", " "))
+        except Exception: pass
+suffix = os.environ.get("SEED_SUFFIX", "")
+if prev:
+    hint += " An earlier round already produced the following changes; produce changes of OTHER kinds, in other functions / clauses / mechanisms: " + " || ".join(prev)
 p = [json.loads(l) for l in open('/verif/properties.jsonl') if json.loads(l)['id'] == pid][0]
-low = pid.lower()
+low = pid.lower() + os.environ.get('SEED_SUFFIX', '')
 files = ", ".join(p['anchors']['files'])
 feat = {
  "proto": "cargo nextest run --offline -p hickory-proto --features dnssec-ring",
